@@ -111,6 +111,33 @@ def pair_latin(ctx, R="C07.pair"):
               "checker rejects a repeated main-factor level", "LatinSquare checker no longer rejects repeated main-factor levels")
 
 
+def latin_rotations(ctx, R="C07.pair"):
+    """LatinSquare._step_rotations is an odometer over the non-main factors: a digit that wraps carries into the next one.
+    Shared by the encoder and the checker, so a sibling comparison cannot see a defect in it; its shape is checked here."""
+    from ..cfg import guard_stack
+    f = ctx.fn("constraint:LatinSquare._step_rotations")
+    loops = [s for s in statements(f.node) if isinstance(s, (ast.While, ast.For))]
+    ctx.require(len(loops) == 1, "_step_rotations: digit loop not found")
+    gs = guard_stack(f.node)
+    brs = [s for s in statements(f.node) if isinstance(s, ast.Break)]
+    incs = [s for s in statements(f.node) if (isinstance(s, ast.AugAssign) and isinstance(s.op, ast.Add) and ast.unparse(s.target).startswith("rotations[")) or
+            (isinstance(s, ast.Assign) and ast.unparse(s.targets[0]).startswith("rotations[") and "+ 1" in ast.unparse(s.value))]
+    ctx.require(len(incs) == 1, "_step_rotations: digit increment not found")
+    digit = ast.unparse(incs[0].target if isinstance(incs[0], ast.AugAssign) else incs[0].targets[0])
+    ok = bool(brs)
+    for b in brs:
+        guards = [ast.unparse(t) for t, pol in gs[id(b)] if digit in ast.unparse(t) and isinstance(t, ast.Compare)]
+        ok = ok and bool(guards)
+    ctx.check(ok, R, f, "odometer carry", "the digit loop stops only when the incremented digit did not wrap; otherwise the carry moves on to the next factor",
+              "_step_rotations leaves its loop right after incrementing one rotation (no test of `%s` against its radix guards the break): a wrapped digit never carries, so with "
+              "three or more factors only the last one ever rotates and diagonals repeat" % digit, brs[0] if brs else loops[0])
+    resets = [s for s in statements(f.node) if isinstance(s, ast.Assign) and ast.unparse(s.targets[0]) == digit and ast.unparse(s.value) == "0"]
+    mods = "%" in ast.unparse(incs[0])
+    ctx.check(bool(resets) or mods, R, f, "wrap to zero", "a digit that reaches its radix restarts at 0", "a rotation that reaches its radix is not reset")
+    skip = [s for s in statements(f.node) if isinstance(s, ast.If) and "main_factor_idx" in ast.unparse(s.test)]
+    ctx.check(len(skip) == 1 and ast.unparse(skip[0].test) in ("k != main_factor_idx",), R, f, "main factor fixed", "the main factor's rotation stays fixed", "the main-factor exclusion of _step_rotations changed")
+
+
 def pair_sustain(ctx, R="C07.pair"):
     a, c = ctx.fn("constraint:Sustain.apply"), ctx.fn("constraint:Sustain.potential_sample_conforms")
     ra, rc = Roles(a), Roles(c)
@@ -453,17 +480,40 @@ def applicability_sites(ctx, R="C07.applicability"):
                       "`%s` asks applicability for a block trial index without dividing by the factor's sustain count; "
                       "every other site (encoder, decoder, checker) divides" % where, c)
     ctx.require(n >= 10, "only %d applies_to_trial sites found" % n)
+    # who may compute applicability: the start / stride phase formula lives in the window owners only; every consumer asks
+    # applies_to_trial (an inlined copy is how the two sides drift apart)
+    SANCTIONED = {"primitive:Factor.applies_to_trial", "primitive:ContinuousFactorWindow.get_window_val", "block:Block.__get_window_range"}
+    m = 0
+    for f in repo.all_functions:
+        if isinstance(f.node, ast.Lambda) or f.module.short in ("scattered_map_core", "smgen", "guided"):
+            continue
+        for node in ast.walk(f.node):
+            if isinstance(node, ast.BinOp) and isinstance(node.op, ast.Mod) and ast.unparse(node.right).split(".")[-1] == "stride":
+                if any(node in list(ast.walk(g.node)) for g in f.nested.values() if not isinstance(g.node, ast.Lambda)):
+                    continue
+                m += 1
+                ctx.check(f.fq in SANCTIONED, R, f, "stride phase in %s" % f.qual, "the stride phase `%s` is computed by a window owner" % ast.unparse(node),
+                          "%s computes the stride phase itself (`%s`) instead of asking Factor.applies_to_trial: an inlined applicability test is where the samplers drift apart "
+                          "(wrong origin, no sustain division)" % (f.qual, ast.unparse(node)), node)
+    ctx.require(m >= 3, "only %d stride-phase computations found (3 sanctioned ones confirmed by hand)" % m)
 
 
 def check(ctx):
     pair_sequential(ctx)
     pair_latin(ctx)
+    latin_rotations(ctx)
     pair_sustain(ctx)
     pair_pin(ctx)
     pair_exclude(ctx)
     pair_kinarow(ctx)
     crossing_facts(ctx)
     applicability_sites(ctx)
+    # the combinatoric side realises the same design only if its rejection step consults every constraint (C04's clauses)
+    # and its candidate space is the counted space (C06's clauses); both are evaluated here under their own rule names
+    if not ctx.is_control or getattr(ctx, "nested_ok", False):
+        from ..report import include
+        include(ctx, "C04", skip=("C04.crossing", "C04.applicability"))
+        include(ctx, "C06")
 
     mod = sys.modules[__name__]
     control(ctx, mod, "Sequential checker ignores the sustain count",
